@@ -77,7 +77,8 @@ func validateGpuFractionAnnotation(hasGpuFractionAnnotation bool, gpuFractionFro
 		return nil
 	}
 	gpuFraction, gpuFractionErr := strconv.ParseFloat(gpuFractionFromAnnotation, 64)
-	if gpuFractionErr != nil || gpuFraction <= 0 || gpuFraction >= 1 {
+	// Written so that NaN (for which every comparison is false) is rejected as well.
+	if gpuFractionErr != nil || !(gpuFraction > 0 && gpuFraction < 1) {
 		return fmt.Errorf(
 			"gpu-fraction annotation value must be a positive number smaller than 1.0")
 	}
